@@ -46,7 +46,7 @@ theorem T.setAtSlot_shape (t : T (Ent V)) (slot : Nat) (v : V) :
     obtain ⟨r1, r2, r3, r4⟩ := ihr
     simp only [T.setAtSlot]
     split
-    · refine ⟨by simp, by simp [T.keys], fun n h => h.entity _ _, rfl⟩
+    · refine ⟨by simp, by simp [T.keys, Ent.setVal], fun n h => h.entity _ _, rfl⟩
     · refine ⟨by simp [l1, r1], ?_, ?_, rfl⟩
       · simp only [T.keys, T.toList_node, List.map_append, List.map_cons] at l2 r2 ⊢
         rw [l2, r2]
